@@ -4,7 +4,7 @@
 // Observation line (see Driver.lean):
 //    r=<ret|-> n=<#new[]> d=<#delete[]> | l<v> <size> <isEmpty> <values> <node ids> | ...
 //    a<v> <size> <capacity> <has storage> <values>
-// Node ids are 4*block + slot with the blocks numbered in allocation order (white-box read of the
+// Node ids are <items per block>*block + slot with the blocks numbered in allocation order (white-box read of the
 // `blocks` chain); returned iterators / references are printed as positions.
 // Ops whose C++ precondition does not hold are answered `bad-op` without touching the container.
 #include "common/hx.h"
@@ -84,6 +84,9 @@ static void resetAll()
 }
 
 // ---- white-box node ids ----------------------------------------------------------------------
+// items per block are not assumed: they follow from the size of the block allocation (recorded by the allocator below)
+static size_t allocSizeOf(const void* block) { return *(const usize*)((const unsigned char*)block - 16); }
+
 template<class C> static long nodeId(C& c, const void* item, size_t stride)
 {
   int n = 0;
@@ -92,8 +95,9 @@ template<class C> static long nodeId(C& c, const void* item, size_t stride)
   for(typename C::ItemBlock* b = c.blocks; b; b = b->next, ++k)
   {
     const char* base = (const char*)(b + 1);
-    if((const char*)item >= base && (const char*)item < base + 4 * stride)
-      return 4L * (n - 1 - k) + (long)(((const char*)item - base) / stride);
+    size_t items = (allocSizeOf(b) - sizeof(typename C::ItemBlock)) / stride;
+    if((const char*)item >= base && (const char*)item < base + items * stride)
+      return (long)items * (n - 1 - k) + (long)(((const char*)item - base) / stride);
   }
   return -1;
 }
